@@ -117,6 +117,8 @@ def write_overlay(kind):
             raise Inconclusive("vinstr failed:\n" + out)
         extra = json.load(open(os.path.join(odir, "replace.json")))
         rep.update(extra)
+        f = os.path.join(inj, "zz_verif_sched.go.in")
+        rep[os.path.join(REPO, "zz_verif_sched.go")] = f
     tmp = path + ".tmp%d" % os.getpid()
     json.dump({"Replace": rep}, open(tmp, "w"), indent=1)
     os.replace(tmp, path)
